@@ -53,101 +53,268 @@ fn ires<T>(r: &Run<T>, f: impl Fn(&T) -> String) -> String {
 struct Stats { n: usize, ok: usize, err: usize, panic: usize, oracle_fail: usize, kinds: std::collections::BTreeMap<String, usize> }
 
 // ---------------------------------------------------------------------------------------------
-// ANM (TH12 container, v7 instructions): ins_3(sprite) "n", ins_88(script) "N"
+// ANM (TH12 container, v7 instructions): sprite arguments "n" (ins_3, ins_102), script arguments "N" (ins_88, ins_95, ins_96)
+
+/// constant expressions as they can be written for a sprite `id:` or a `const` item
+#[derive(Clone, Debug)]
+enum Ex { I(i32), F(f32), K(usize, Option<char>), Un(&'static str, Box<Ex>), Bin(Box<Ex>, &'static str, Box<Ex>), Tern(Box<Ex>, Box<Ex>, Box<Ex>), CastI(Box<Ex>), CastF(Box<Ex>) }
+
+/// the `const` items every generated ANM script starts with: (name, is_float, definition); DefId = position.
+/// `DER` and `T3` are declared before the consts they use.
+fn const_items() -> Vec<(&'static str, bool, Ex)> {
+    use Ex::*;
+    let k = |i: usize| Box::new(K(i, None));
+    vec![
+        ("DER", false, Bin(Box::new(Bin(k(1), "*", Box::new(I(2)))), "-", Box::new(I(20)))),         // K * 2 - 20 = -6
+        ("K", false, I(7)),
+        ("NEG", false, Un("-", Box::new(I(3)))),
+        ("Z0", false, Bin(k(1), "-", Box::new(I(7)))),                                                // 0
+        ("FL", true, F(2.5)),
+        ("T3", false, Tern(k(2), Box::new(I(3)), Box::new(I(4)))),                                    // NEG ? 3 : 4 = 3
+    ]
+}
+const INT_CONSTS: [usize; 5] = [0, 1, 2, 3, 5];
+const FLOAT_CONST: usize = 4;
+
+#[derive(Clone, Copy, Debug, PartialEq)]
+enum Val { I(i32), F(f32) }
+
+/// harness-side evaluation (wrapping i32 / f32); used only to steer the generator (legal duplicates, "the automatic id
+/// anyway"), never for a verdict: the expected values are computed by the Coq model from the expression itself
+fn ev(e: &Ex, consts: &[(&'static str, bool, Ex)], depth: usize) -> Option<Val> {
+    if depth > 40 { return None; }
+    Some(match e {
+        Ex::I(i) => Val::I(*i), Ex::F(f) => Val::F(*f),
+        Ex::K(i, sg) => match (ev(&consts[*i].2, consts, depth + 1)?, sg) {
+            (Val::I(x), Some('%')) => Val::F(x as f32), (Val::F(x), Some('$')) => Val::I(x as i32), (v, _) => v },
+        Ex::CastI(x) => match ev(x, consts, depth + 1)? { Val::F(f) => Val::I(f as i32), v => v },
+        Ex::CastF(x) => match ev(x, consts, depth + 1)? { Val::I(i) => Val::F(i as f32), v => v },
+        Ex::Un(op, x) => match (ev(x, consts, depth + 1)?, *op) {
+            (Val::I(i), "-") => Val::I(i.wrapping_neg()), (Val::I(i), "!") => Val::I((i == 0) as i32), (Val::I(i), "~") => Val::I(!i),
+            (Val::F(f), "-") => Val::F(-f), _ => return None },
+        Ex::Tern(c, l, r) => match ev(c, consts, depth + 1)? { Val::I(0) => ev(r, consts, depth + 1)?, Val::I(_) => ev(l, consts, depth + 1)?, _ => return None },
+        Ex::Bin(a, op, b) => match (ev(a, consts, depth + 1)?, ev(b, consts, depth + 1)?) {
+            (Val::I(x), Val::I(y)) => Val::I(match *op {
+                "+" => x.wrapping_add(y), "-" => x.wrapping_sub(y), "*" => x.wrapping_mul(y),
+                "/" => if y == 0 { return None } else { x.wrapping_div(y) }, "%" => if y == 0 { return None } else { x.wrapping_rem(y) },
+                "==" => (x == y) as i32, "!=" => (x != y) as i32, "<" => (x < y) as i32, "<=" => (x <= y) as i32, ">" => (x > y) as i32, ">=" => (x >= y) as i32,
+                "|" => x | y, "^" => x ^ y, "&" => x & y, "||" => if x == 0 { y } else { x }, "&&" => if x == 0 { 0 } else { y },
+                "<<" => x.wrapping_shl(y as u32), ">>" => x.wrapping_shr(y as u32), ">>>" => ((x as u32).wrapping_shr(y as u32)) as i32,
+                _ => return None }),
+            (Val::F(x), Val::F(y)) => match *op {
+                "+" => Val::F(x + y), "-" => Val::F(x - y), "*" => Val::F(x * y),
+                "==" => Val::I((x == y) as i32), "!=" => Val::I((x != y) as i32), "<" => Val::I((x < y) as i32), "<=" => Val::I((x <= y) as i32), ">" => Val::I((x > y) as i32), ">=" => Val::I((x >= y) as i32),
+                _ => return None },
+            _ => return None },
+    })
+}
+
+fn ex_text(e: &Ex, consts: &[(&'static str, bool, Ex)]) -> String {
+    match e {
+        Ex::I(i) => if *i < 0 { format!("({})", i) } else { i.to_string() },
+        Ex::F(f) => if *f < 0.0 { format!("({:?})", f) } else { format!("{:?}", f) },
+        Ex::K(i, sg) => format!("{}{}", sg.map(|c| c.to_string()).unwrap_or_default(), consts[*i].0),
+        Ex::Un(op, x) => format!("({}({}))", op, ex_text(x, consts)),
+        Ex::Bin(a, op, b) => format!("({} {} {})", ex_text(a, consts), op, ex_text(b, consts)),
+        Ex::Tern(c, l, r) => format!("({} ? {} : {})", ex_text(c, consts), ex_text(l, consts), ex_text(r, consts)),
+        Ex::CastI(x) => format!("int({})", ex_text(x, consts)),
+        Ex::CastF(x) => format!("float({})", ex_text(x, consts)),
+    }
+}
+
+fn ex_coq(e: &Ex) -> String {
+    let bop = |o: &str| match o { "+" => "Add", "-" => "Sub", "*" => "Mul", "/" => "Div", "%" => "Rem", "==" => "Eq", "!=" => "Ne", "<" => "Lt", "<=" => "Le", ">" => "Gt", ">=" => "Ge",
+        "|" => "BitOr", "^" => "BitXor", "&" => "BitAnd", "||" => "LogicOr", "&&" => "LogicAnd", "<<" => "ShiftLeft", ">>" => "ShiftRightSigned", _ => "ShiftRightUnsigned" };
+    match e {
+        Ex::I(i) => format!("(ELitI {})", zs(*i as i64)),
+        Ex::F(f) => format!("(ELitF {})", f.to_bits()),
+        Ex::K(i, sg) => format!("(EVar {} {}%nat)", match sg { Some('$') => "(Some SgInt)", Some(_) => "(Some SgFloat)", None => "None" }, i),
+        Ex::Un(op, x) => format!("(EUn {} {})", match *op { "-" => "Neg", "!" => "Not", _ => "BitNot" }, ex_coq(x)),
+        Ex::Bin(a, op, b) => format!("(EBin {} {} {})", ex_coq(a), bop(op), ex_coq(b)),
+        Ex::Tern(c, l, r) => format!("(ETern {} {} {})", ex_coq(c), ex_coq(l), ex_coq(r)),
+        Ex::CastI(x) => format!("(EUn CastI {})", ex_coq(x)),
+        Ex::CastF(x) => format!("(EUn CastF {})", ex_coq(x)),
+    }
+}
+
+fn gen_cond(rng: &mut Rng, depth: usize) -> Ex {
+    // conditions: negative, zero and positive ints in every shape
+    match rng.below(9) {
+        0 => Ex::K(2, None), 1 => Ex::K(0, None), 2 => Ex::K(3, None), 3 => Ex::K(1, None),
+        4 => Ex::I(-1 - rng.below(3) as i32), 5 => Ex::I(0),
+        6 => Ex::Bin(Box::new(Ex::K(1, None)), "-", Box::new(Ex::I(100))),
+        _ => gen_int(rng, depth + 1),
+    }
+}
+
+fn gen_int(rng: &mut Rng, depth: usize) -> Ex {
+    let leaf = depth >= 3 || rng.chance(1, 3);
+    if leaf {
+        return match rng.below(6) {
+            0 | 1 => Ex::I(rng.range(-4, 24) as i32),
+            2 | 3 => Ex::K(*rng.pick(&INT_CONSTS), None),
+            4 => Ex::K(FLOAT_CONST, Some('$')),
+            _ => Ex::I(*rng.pick(&[0, 1, -1, 255, 256, 65535, 100000])),
+        };
+    }
+    let b = |e: Ex| Box::new(e);
+    match rng.below(12) {
+        0 | 1 | 2 => { let op = *rng.pick(&["+", "-", "*", "+", "-"]); Ex::Bin(b(gen_int(rng, depth + 1)), op, b(gen_int(rng, depth + 1))) },
+        3 => { let op = *rng.pick(&["/", "%"]); let d = if rng.chance(1, 12) { gen_int(rng, depth + 1) } else { Ex::I(*rng.pick(&[1, 2, 3, -2, 7])) }; Ex::Bin(b(gen_int(rng, depth + 1)), op, b(d)) },
+        4 => { let op = *rng.pick(&["==", "!=", "<", "<=", ">", ">="]);
+               if rng.chance(1, 3) { Ex::Bin(b(gen_float(rng, depth + 1)), op, b(gen_float(rng, depth + 1))) } else { Ex::Bin(b(gen_int(rng, depth + 1)), op, b(gen_int(rng, depth + 1))) } },
+        5 => { let op = *rng.pick(&["|", "^", "&", "||", "&&"]); Ex::Bin(b(gen_int(rng, depth + 1)), op, b(gen_int(rng, depth + 1))) },
+        6 => { let op = *rng.pick(&["<<", ">>", ">>>"]); Ex::Bin(b(gen_int(rng, depth + 1)), op, b(Ex::I(rng.range(-2, 34) as i32))) },
+        7 => { let op = *rng.pick(&["-", "!", "~"]); Ex::Un(op, b(gen_int(rng, depth + 1))) },
+        8 | 9 | 10 => Ex::Tern(b(gen_cond(rng, depth)), b(gen_int(rng, depth + 1)), b(gen_int(rng, depth + 1))),
+        _ => Ex::CastI(b(gen_float(rng, depth + 1))),
+    }
+}
+
+fn gen_float(rng: &mut Rng, depth: usize) -> Ex {
+    let b = |e: Ex| Box::new(e);
+    if depth >= 3 || rng.chance(1, 2) {
+        return match rng.below(4) { 0 => Ex::F(*rng.pick(&[0.5f32, 2.5, -1.5, 3.0, 100.25, 0.0])), 1 => Ex::K(FLOAT_CONST, None), 2 => Ex::K(*rng.pick(&INT_CONSTS), Some('%')), _ => Ex::F(rng.range(-8, 8) as f32 * 0.25) };
+    }
+    match rng.below(5) {
+        0 | 1 => { let op = *rng.pick(&["+", "-", "*"]); Ex::Bin(b(gen_float(rng, depth + 1)), op, b(gen_float(rng, depth + 1))) },
+        2 => Ex::Un("-", b(gen_float(rng, depth + 1))),
+        3 => Ex::Tern(b(gen_cond(rng, depth)), b(gen_float(rng, depth + 1)), b(gen_float(rng, depth + 1))),
+        _ => Ex::CastF(b(gen_int(rng, depth + 1))),
+    }
+}
 
 #[derive(Clone, Debug)]
-struct SpriteDecl { name: usize, id_text: Option<String>, id_val: Option<i64> }
+struct SpriteDecl { name: usize, id: Option<Ex>, id_val: Option<i64> }
 #[derive(Clone, Debug)]
-enum Use { Sprite(usize), Script(usize) }
-struct AnmLayout { entries: Vec<Vec<SpriteDecl>>, scripts: Vec<(usize, usize, Option<i64>, Vec<Use>)> /* (entry, name, explicit number, uses) */ }
+enum Use { Sprite(usize, u8), Script(usize, u8) }       // (name, which instruction form)
+struct AnmLayout { entries: Vec<Vec<SpriteDecl>>, scripts: Vec<(usize, usize, Option<i64>, Vec<Use>)> /* (entry, name, explicit number, uses) */, mode: &'static str }
 
-fn gen_id(rng: &mut Rng, running: i64) -> (String, i64) {
-    match rng.below(10) {
-        0 => { let v = running; (v.to_string(), v) },                         // what the automatic id would be anyway
-        1 => { let v = (running - 1 - rng.below(3) as i64).max(0); (v.to_string(), v) },   // decreasing / duplicate
-        2 => { let a = rng.below(6) as i64; (format!("K + {}", a), 7 + a) },  // constant expression over `const int K = 7;`
-        3 => { let a = rng.below(5) as i64; let b = rng.below(5) as i64; (format!("{} * {} + 1", a, b), a * b + 1) },
-        4 => match rng.below(8) { 0 => ("-1".into(), -1), 1 => ("2147483647".into(), 2147483647), 2 => ("-2147483648".into(), -2147483648), 3 => ("-2".into(), -2), 4 => ("65535".into(), 65535), _ => { let v = 1000 + rng.below(100000) as i64; (v.to_string(), v) } },
-        _ => { let v = rng.below(24) as i64; (v.to_string(), v) },
+fn gen_id(rng: &mut Rng, running: i64, consts: &[(&'static str, bool, Ex)]) -> (Ex, Option<i64>) {
+    let lit = |v: i64| (Ex::I(v as i32), Some(v));
+    match rng.below(12) {
+        0 => lit(running),                                                    // what the automatic id would be anyway
+        1 => lit((running - 1 - rng.below(3) as i64).max(0)),                 // decreasing / duplicate
+        2 => match rng.below(8) { 0 => lit(-1), 1 => lit(2147483647), 2 => lit(-2147483648), 3 => lit(-2), 4 => lit(65535), _ => lit(1000 + rng.below(100000) as i64) },
+        3 | 4 | 5 => lit(rng.below(24) as i64),
+        _ => { let e = gen_int(rng, 0); let v = match ev(&e, consts, 0) { Some(Val::I(i)) => Some(i as i64), _ => None }; (e, v) },
     }
 }
 
 fn gen_anm(rng: &mut Rng) -> AnmLayout {
-    let ne = 1 + rng.below(4) as usize;
-    let chaos = rng.chance(1, 3);        // allow clashing duplicate names / undefined names more often
-    let mut entries = vec![]; let mut running: i64 = 0;
-    let mut defined: Vec<(usize, i64)> = vec![];
-    for _ in 0..ne {
+    let consts = const_items();
+    let mode = match rng.below(20) { 0..=9 => "normal", 10..=12 => "clash", 13..=15 => "dupscript", _ => "chaos" };
+    let chaos = mode == "chaos";
+    let ne = if mode == "clash" { 2 + rng.below(3) as usize } else { 1 + rng.below(4) as usize };
+    let mut entries = vec![]; let mut running: Option<i64> = Some(0);
+    let mut defined: Vec<(usize, Option<i64>)> = vec![];
+    // clash mode: one name defined in 2..4 different entries with ids following an agree/differ pattern over two values
+    let clash_name = 7usize;
+    let (ca, cb) = (rng.below(12) as i64, 12 + rng.below(12) as i64);
+    let nclash = if mode == "clash" { (2 + rng.below(3) as usize).min(ne) } else { 0 };
+    let pattern: Vec<bool> = (0..nclash).map(|i| i > 0 && rng.chance(2, 5)).collect();
+    for ei in 0..ne {
         let ns = rng.below(5) as usize;
         let mut sprites: Vec<SpriteDecl> = vec![];
-        for _ in 0..ns {
+        let clash_at = if ei < nclash { Some(rng.below(ns as u64 + 1) as usize) } else { None };
+        for si in 0..=ns {
+            if clash_at == Some(si) {
+                let v = if pattern[ei] { cb } else { ca };
+                sprites.push(SpriteDecl { name: clash_name, id: Some(Ex::I(v as i32)), id_val: Some(v) });
+                defined.push((clash_name, Some(v)));
+                running = Some(v + 1);
+            }
+            if si == ns { break; }
             let explicit = rng.chance(2, 5);
-            let (id_text, id_val) = if explicit { let (t, v) = gen_id(rng, running); (Some(t), Some(v)) } else { (None, None) };
-            let value = id_val.unwrap_or(running);
+            let (id, id_val) = if explicit { let (e, v) = gen_id(rng, running.unwrap_or(3), &consts); (Some(e), v) } else { (None, None) };
+            let value = if explicit { id_val } else { running };
             // name: fresh, or an existing name with the same value (legal duplicate), or (chaos) any name
-            let mut name = rng.below(8) as usize;
+            let mut name = rng.below(7) as usize;
             if !chaos {
-                let same: Vec<usize> = defined.iter().filter(|(_, v)| *v == value).map(|(n, _)| *n).collect();
+                let same: Vec<usize> = defined.iter().filter(|(n, v)| v.is_some() && *v == value && *n != clash_name).map(|(n, _)| *n).collect();
                 if !same.is_empty() && rng.chance(1, 2) { name = *rng.pick(&same); }
-                else { let mut tries = 0; while defined.iter().any(|(n, v)| *n == name && *v != value) && tries < 20 { name = rng.below(8) as usize; tries += 1; } }
+                else { let mut tries = 0; while defined.iter().any(|(n, v)| *n == name && *v != value) && tries < 20 { name = rng.below(7) as usize; tries += 1; } }
             }
             if sprites.iter().any(|s| s.name == name) { continue; }     // duplicate key inside one entry is a parse error
-            sprites.push(SpriteDecl { name, id_text, id_val });
+            sprites.push(SpriteDecl { name, id, id_val });
             defined.push((name, value));
-            running = (value as i32).wrapping_add(1) as i64;
+            running = value.map(|v| (v as i32).wrapping_add(1) as i64);
         }
         entries.push(sprites);
     }
-    let nscripts = 1 + rng.below(4) as usize;
-    let mut scripts = vec![]; let mut names: Vec<usize> = vec![];
+    let nscripts = if mode == "dupscript" { 3 + rng.below(3) as usize } else { 1 + rng.below(4) as usize };
+    let mut names: Vec<usize> = vec![];
     for _ in 0..nscripts {
         let mut name = rng.below(6) as usize;
         if !chaos || rng.chance(3, 4) { let mut t = 0; while names.contains(&name) && t < 20 { name = rng.below(6) as usize; t += 1; } }
         names.push(name);
     }
+    if mode == "dupscript" {
+        // one name twice, not last: scripts defined after the second duplicate exist and are referenced
+        let j = 1 + rng.below(nscripts as u64 - 2) as usize;
+        let i = rng.below(j as u64) as usize;
+        names[j] = names[i];
+    }
+    let mut scripts = vec![];
     for (k, &name) in names.iter().enumerate() {
         let entry = if k == 0 { 0 } else { rng.below(ne as u64) as usize };
-        let number = if rng.chance(1, 4) { Some(rng.range(-50, 50)) } else { None };
-        let nuses = rng.below(5) as usize;
+        let number = if rng.chance(1, 4) { Some(if rng.chance(1, 10) { *rng.pick(&[2147483647i64, 2147483646, -2147483648]) } else { rng.range(-50, 50) }) } else { None };
+        let nuses = if mode == "dupscript" { 1 + rng.below(4) as usize } else { rng.below(5) as usize };
         let uses = (0..nuses).map(|_| {
-            if rng.chance(2, 3) {
-                if defined.is_empty() || (chaos && rng.chance(1, 6)) { Use::Sprite(rng.below(9) as usize) } else { Use::Sprite(rng.pick(&defined).0) }
-            } else if chaos && rng.chance(1, 6) { Use::Script(rng.below(7) as usize) } else { Use::Script(*rng.pick(&names)) }
+            if mode != "dupscript" && rng.chance(2, 3) {
+                let form = rng.below(2) as u8;
+                if mode == "clash" && rng.chance(1, 2) { Use::Sprite(clash_name, form) }
+                else if defined.is_empty() || (chaos && rng.chance(1, 6)) { Use::Sprite(rng.below(9) as usize, form) } else { Use::Sprite(rng.pick(&defined).0, form) }
+            } else {
+                let form = rng.below(3) as u8;
+                if chaos && rng.chance(1, 6) { Use::Script(rng.below(7) as usize, form) }
+                else if mode == "dupscript" && rng.chance(1, 2) { Use::Script(*names.last().unwrap(), form) }
+                else { Use::Script(*rng.pick(&names), form) }
+            }
         }).collect();
         scripts.push((entry, name, number, uses));
     }
     scripts.sort_by_key(|s| s.0);          // scripts follow their entry in the file
-    AnmLayout { entries, scripts }
+    AnmLayout { entries, scripts, mode }
 }
 
 fn anm_text(l: &AnmLayout) -> String {
-    let mut t = String::from("const int K = 7;\n");
+    let consts = const_items();
+    let mut t = String::new();
+    for (name, is_float, e) in &consts { let _ = writeln!(t, "const {} {} = {};", if *is_float { "float" } else { "int" }, name, ex_text(e, &consts)); }
     for (ei, sprites) in l.entries.iter().enumerate() {
         let _ = writeln!(t, "entry {{ path: \"e{}.png\", has_data: false, rt_width: 64, rt_height: 64, sprites: {{", ei);
         for s in sprites {
-            let id = s.id_text.as_ref().map(|x| format!("id: {}, ", x)).unwrap_or_default();
+            let id = s.id.as_ref().map(|x| format!("id: ({}), ", ex_text(x, &consts))).unwrap_or_default();
             let _ = writeln!(t, "    sp{}: {{{}x: 0.0, y: 0.0, w: 1.0, h: 1.0}},", s.name, id);
         }
         t.push_str("} }\n");
         for (e, name, number, uses) in &l.scripts {
             if *e != ei { continue; }
             let _ = writeln!(t, "script {}sc{} {{", number.map(|n| format!("{} ", n)).unwrap_or_default(), name);
-            for u in uses { match u { Use::Sprite(n) => { let _ = writeln!(t, "    ins_3(sp{});", n); }, Use::Script(n) => { let _ = writeln!(t, "    ins_88(sc{});", n); } } }
+            for u in uses { match u {
+                Use::Sprite(n, 0) => { let _ = writeln!(t, "    ins_3(sp{});", n); },
+                Use::Sprite(n, _) => { let _ = writeln!(t, "    ins_102(sp{}, 5);", n); },
+                Use::Script(n, 0) => { let _ = writeln!(t, "    ins_88(sc{});", n); },
+                Use::Script(n, 1) => { let _ = writeln!(t, "    ins_95(sc{});", n); },
+                Use::Script(n, _) => { let _ = writeln!(t, "    ins_96(sc{}, 1.0, 2.0);", n); },
+            } }
             t.push_str("}\n");
         }
     }
     t
 }
 
-/// own walker: (sprite ids in file order, (opcode, first argument) of every instruction in file order)
-fn walk_anm(b: &[u8]) -> Result<(Vec<u32>, Vec<(u32, u32)>), String> {
-    let (mut ids, mut instrs) = (vec![], vec![]);
+/// own walker: (sprite ids in file order, script numbers in file order, (opcode, first argument) of every instruction in file order)
+fn walk_anm(b: &[u8]) -> Result<(Vec<u32>, Vec<i32>, Vec<(u32, u32)>), String> {
+    let (mut ids, mut nums, mut instrs) = (vec![], vec![], vec![]);
     let mut pos = 0usize;
     loop {
         let nsprites = rd16(b, pos + 4)? as usize; let nscripts = rd16(b, pos + 6)? as usize;
         let next = rd32(b, pos + 0x24)? as usize;
         for k in 0..nsprites { let off = rd32(b, pos + 0x40 + 4 * k)? as usize; ids.push(rd32(b, pos + off)?); }
         for k in 0..nscripts {
+            nums.push(rd32(b, pos + 0x40 + 4 * nsprites + 8 * k)? as i32);
             let off = rd32(b, pos + 0x40 + 4 * nsprites + 8 * k + 4)? as usize;
             let mut p = pos + off;
             loop {
@@ -161,7 +328,7 @@ fn walk_anm(b: &[u8]) -> Result<(Vec<u32>, Vec<(u32, u32)>), String> {
         if next == 0 { break; }
         pos += next;
     }
-    Ok((ids, instrs))
+    Ok((ids, nums, instrs))
 }
 
 fn anm_case(work: &Path, rng: &mut Rng, st: &mut Stats, replay: &str) {
@@ -169,45 +336,54 @@ fn anm_case(work: &Path, rng: &mut Rng, st: &mut Stats, replay: &str) {
     let text = anm_text(&l);
     let r = compile(work, "truanm", "12", &text, None);
     let uses: Vec<Use> = l.scripts.iter().flat_map(|s| s.3.iter().cloned()).collect();
-    let obs: Run<(Vec<u32>, Vec<u32>)> = match &r {
+    let obs: Run<(Vec<u32>, Vec<i32>, Vec<u32>)> = match &r {
         Run::Ok(b) => match walk_anm(b) {
-            Ok((ids, instrs)) => if instrs.len() == uses.len() { Run::Ok((ids, instrs.iter().map(|x| x.1).collect())) } else { Run::Err(format!("harness: {} instructions for {} uses", instrs.len(), uses.len())) },
+            Ok((ids, nums, instrs)) => if instrs.len() == uses.len() { Run::Ok((ids, nums, instrs.iter().map(|x| x.1).collect())) } else { Run::Err(format!("harness: {} instructions for {} uses", instrs.len(), uses.len())) },
             Err(e) => Run::Err(format!("harness cannot walk output: {}", e)) },
         Run::Err(e) => Run::Err(e.clone()), Run::Panic(p) => Run::Panic(p.clone()),
     };
     // oracle: the argument is the id every sprite of that name has in the written tables / the script's position in the file
-    if let Run::Ok((ids, args)) = &obs {
+    if let Run::Ok((ids, _, args)) = &obs {
         let flat: Vec<&SpriteDecl> = l.entries.iter().flatten().collect();
         let script_names: Vec<usize> = l.scripts.iter().map(|s| s.1).collect();
+        let mut bad: Option<String> = None;
+        if ids.len() != flat.len() { bad = Some(format!("{} sprites written for {} declared", ids.len(), flat.len())); }
+        // a name that is defined with two different written ids must not compile at all
+        for (i, d) in flat.iter().enumerate() { for (j, e) in flat.iter().enumerate() {
+            if bad.is_none() && i < j && d.name == e.name && ids.get(i) != ids.get(j) { bad = Some(format!("sp{} is written with ids {} and {} but the compile succeeded", d.name, ids[i], ids[j])); }
+        } }
+        for (i, n) in script_names.iter().enumerate() { if bad.is_none() && script_names[..i].contains(n) { bad = Some(format!("sc{} is defined twice but the compile succeeded", n)); } }
         for (u, &a) in uses.iter().zip(args) {
-            let bad = match u {
-                Use::Sprite(n) => {
+            if bad.is_some() { break; }
+            bad = match u {
+                Use::Sprite(n, _) => {
                     let targets: Vec<u32> = flat.iter().zip(ids).filter(|(d, _)| d.name == *n).map(|(_, &i)| i).collect();
                     if targets.is_empty() { Some(format!("sp{} is not defined but the compile succeeded (argument {})", n, a)) }
                     else if targets.iter().any(|&t| t != a) { Some(format!("sp{} compiled to {} but its id in the file is {:?}", n, a, targets)) } else { None }
                 },
-                Use::Script(n) => match script_names.iter().position(|x| x == n) {
+                Use::Script(n, _) => match script_names.iter().position(|x| x == n) {
                     None => Some(format!("sc{} is not defined but the compile succeeded", n)),
-                    Some(i) => if script_names.iter().filter(|x| *x == n).count() > 1 { Some(format!("sc{} is defined twice but the compile succeeded", n)) }
-                               else if i as u32 != a { Some(format!("sc{} compiled to {} but it is script number {} in the file", n, a, i)) } else { None } },
+                    Some(i) => if i as u32 != a { Some(format!("sc{} compiled to {} but it is script number {} in the file", n, a, i)) } else { None } },
             };
-            if let Some(what) = bad { st.oracle_fail += 1; println!("ORACLE-FAIL\tanm: {}\t{}\t{}", what, replay, oneline(&text)); break; }
         }
+        if let Some(what) = bad { st.oracle_fail += 1; println!("ORACLE-FAIL\tanm: {}\t{}\t{}", what, replay, oneline(&text)); }
     }
     if let Run::Panic(p) = &obs {
         let known = flat_has_umax(&l);
         st.oracle_fail += 1;
         println!("ORACLE-FAIL\t{}: {}\t{}\t{}", if known { "anm-sprite-id-overflow" } else { "anm-panic" }, short(p), replay, oneline(&text));
     }
-    let entries = l.entries.iter().map(|e| format!("[{}]", e.iter().map(|s| format!("sd {} {}", s.name, match s.id_val { Some(v) => format!("(Some {})", zs(v)), None => "None".into() })).collect::<Vec<_>>().join(";"))).collect::<Vec<_>>().join(";");
-    let uses_t = uses.iter().map(|u| match u { Use::Sprite(n) => format!("USprite {}", n), Use::Script(n) => format!("UScript {}", n) }).collect::<Vec<_>>().join(";");
-    println!("ANM\tKAnm [{}] {} [{}] {}\t{} => {}", entries, nlist(l.scripts.iter().map(|s| s.1)), uses_t,
-        ires(&obs, |(ids, args)| format!("({}, {})", zlist(ids.iter().map(|&x| x as i64)), zlist(args.iter().map(|&x| x as i64)))), replay, status(&obs));
-    tally(st, "anm", &obs);
+    let consts = const_items();
+    let consts_t = consts.iter().enumerate().map(|(i, c)| format!("({}%nat, {})", i, ex_coq(&c.2))).collect::<Vec<_>>().join(";");
+    let entries = l.entries.iter().map(|e| format!("[{}]", e.iter().map(|s| format!("sx {} {}", s.name, match &s.id { Some(x) => format!("(Some {})", ex_coq(x)), None => "None".into() })).collect::<Vec<_>>().join(";"))).collect::<Vec<_>>().join(";");
+    let scripts_t = l.scripts.iter().map(|s| format!("sc {} {}", s.1, match s.2 { Some(n) => format!("(Some {})", zs(n)), None => "None".into() })).collect::<Vec<_>>().join(";");
+    let uses_t = uses.iter().map(|u| match u { Use::Sprite(n, _) => format!("USprite {}", n), Use::Script(n, _) => format!("UScript {}", n) }).collect::<Vec<_>>().join(";");
+    println!("ANM\tKAnm [{}] [{}] [{}] [{}] {}\t{} mode={} => {}", consts_t, entries, scripts_t, uses_t,
+        ires(&obs, |(ids, nums, args)| format!("({}, {}, {})", zlist(ids.iter().map(|&x| x as i64)), zlist(nums.iter().map(|&x| x as i64)), zlist(args.iter().map(|&x| x as i64)))), replay, l.mode, status(&obs));
+    tally(st, &format!("anm-{}", l.mode), &obs);
 }
 
 fn flat_has_umax(l: &AnmLayout) -> bool {
-    // the written id reaches 0xFFFFFFFF exactly when an explicit id is -1 or an automatic run reaches it; only the first is generated
     l.entries.iter().flatten().any(|s| s.id_val == Some(-1))
 }
 
